@@ -53,7 +53,21 @@ def c05(rng, qk):
         else:
             s.backend_some(fine_prob=0.8)
     s.op(f"tick {2 * grace + 4}")
-    s.finish(final=True)
+    if rng.random() < 0.4 and len(s.alive) >= 2:
+        # the run ends with the backend's exit drain over a BACKLOG: one thread holds more statements than one read pass takes (the
+        # hard limit), another thread holds newer ones - the drain must go back to the queues whenever a thread's transit buffer runs
+        # empty while its queue is not, or the newer statements overtake the rest of the backlog
+        for t in s.threads:
+            s.op(f"T {t} go")
+        a, b = rng.sample(sorted(s.alive), 2)
+        for _ in range(rng.randint(hard + 1, 2 * hard + 2)):
+            s.log(a, rng.choice(s.loggers), pad=rng.randint(0, 8))
+        for _ in range(rng.randint(1, 3)):
+            s.log(b, rng.choice(s.loggers), pad=rng.randint(0, 8))
+        s.op(f"tick {2 * grace + 4}")
+        s.finish_by_exit()
+    else:
+        s.finish(final=True)
     return s.text(), s.grace
 
 
